@@ -159,8 +159,11 @@ def run(ctx, res):
             t['classes'] = []
             t['poms'] = [p for p in t['poms'] if p['objs'][0]['m']['k'] == 'ref'][:1]
         c['doc'] = c['doc'][:2]; c['layout'] = [[[c['doc'][0]['id']]], [[c['doc'][1]['id']]]]
-        for s_ in c['sources']:
+        vals2 = {'INTEGER': ['5', '12'], 'DOUBLE': ['1.5', '2.5'], 'BOOLEAN': ['true', 'false'], 'DATE': ['2020-01-02', '2021-03-04'], 'TEXT': ['x y', 'abc'], 'DECIMAL(10,2)': ['3.25', '4.50']}
+        for s_, ty in zip(c['sources'], (ta, tb)):
             s_['kind'] = 'sqltable'
+            for row in s_['rows']:
+                row[1] = ctx.rng.choice(vals2[ty])          # lexical forms of the column's declared type (ill-typed values: C15)
         d = os.path.join(wd, 'infs%d' % rep); os.makedirs(d)
         cfg = mapcase.materialise_layout(c, d, c['layout']).replace('[CONFIGURATION]\n', '[CONFIGURATION]\ninfer_sql_datatypes=yes\n')
         r = ctx.pool.call('mat_set', config=cfg, cwd=d, catalogue={'m_A.db\x00people\x00name': ta, 'm_B.db\x00people\x00name': tb})
